@@ -215,3 +215,93 @@ Proof.
   - apply fold_valid_keeps_filed. unfold valid_step. rewrite Hb, Hd, Hr. simpl. apply rappend_adds.
   - apply IH. exact Hin.
 Qed.
+
+(* ---- every other tag is kept ------------------------------------------------------------------------------------- *)
+From Olareg Require Import IndexInv.
+
+Section KeepsTags.
+  Variables (E : env) (x : desc) (t' : string).
+  Hypothesis Ht1 : t' <> "".
+  Hypothesis Hnf : reftag t' = false.            (* not a fallback tag *)
+  Hypothesis Hh : holds t' x = true.
+  Hypothesis Hsub : ann_get RefSubject x = "".    (* not a referrers response *)
+
+  Lemma fold_err_tag blobs l st : is_ok st = false -> is_ok (fold_left (conv_tag_step E blobs) l st) = false.
+  Proof. revert st. induction l as [|d r IH]; intros st H; cbn [fold_left]; auto. apply IH. destruct st; [discriminate| |]; reflexivity. Qed.
+
+  Lemma tag_step_keeps blobs cs cs' d :
+    conv_tag_step E blobs (Ok cs) d = Ok cs' -> In x (top (cs_index cs)) -> In x (top (cs_index cs')).
+  Proof.
+    unfold conv_tag_step. cbn [rbind]. destruct (get_index E blobs d) as [ms|]; [|intros H; inversion H; subst; auto].
+    match goal with |- context [if ?c then _ else _] => destruct c end.
+    - match goal with |- context [add_desc ?a ?b ?c] => destruct (add_desc a b c) as [i'| |] eqn:Ea end; cbn [rbind]; try discriminate.
+      intros H Hin. inversion H; subst. cbn [cs_index].
+      eapply (add_desc_keeps_other_tags _ [] _ i' x t' Ea Hin Hh Ht1); auto.
+    - intros H; inversion H; subst; auto.
+  Qed.
+
+  Lemma fold_tag_keeps blobs l : forall cs cs',
+    fold_left (conv_tag_step E blobs) l (Ok cs) = Ok cs' -> In x (top (cs_index cs)) ->
+    In x (top (cs_index cs')) /\ (forall d, In d (cs_rm cs') -> In d (cs_rm cs) \/ In d l).
+  Proof.
+    induction l as [|d r IH]; intros cs cs' H Hin; cbn [fold_left] in H; [inversion H; subst; auto|].
+    destruct (conv_tag_step E blobs (Ok cs) d) as [cs1| |] eqn:E1.
+    - pose proof (tag_step_keeps blobs cs cs1 d E1 Hin) as H1. destruct (IH cs1 cs' H H1) as [H2 H3]. split; auto.
+      intros y Hy. destruct (H3 y Hy) as [H4|H4]; [|right; right; exact H4].
+      (* rm entries only grow by the current tag *)
+      unfold conv_tag_step in E1. cbn [rbind] in E1. destruct (get_index E blobs d); [|inversion E1; subst; auto].
+      match type of E1 with context [if ?c then _ else _] => destruct c end.
+      + match type of E1 with context [add_desc ?a ?b ?c] => destruct (add_desc a b c) end; cbn [rbind] in E1; try discriminate.
+        inversion E1; subst. auto.
+      + inversion E1; subst. cbn [cs_rm] in H4. apply in_app_or in H4. destruct H4 as [H4|[<-|[]]]; auto. right. left. reflexivity.
+    - pose proof (fold_err_tag blobs r Panic eq_refl) as He. rewrite H in He. discriminate.
+    - pose proof (fold_err_tag blobs r OutOfFuel eq_refl) as He. rewrite H in He. discriminate.
+  Qed.
+
+  Lemma fold_gen_keeps_tag blobs resp now l : forall i bl i' bl',
+    fold_left (conv_gen_step E blobs resp now) l (Ok (i, bl)) = Ok (i', bl') -> In x (top i) -> In x (top i').
+  Proof.
+    induction l as [|kv r IH]; intros i bl i' bl' H Hin; cbn [fold_left] in H; [inversion H; subst; auto|].
+    destruct (conv_gen_step E blobs resp now (Ok (i, bl)) kv) as [[i1 bl1]| |] eqn:E1.
+    - eapply IH; [exact H|]. unfold conv_gen_step in E1. cbn [rbind] in E1.
+      match type of E1 with context [add_desc ?a ?b ?c] => destruct (add_desc a b c) as [ix| |] eqn:Ea end; cbn [rbind] in E1; try discriminate.
+      inversion E1; subst. eapply (add_desc_keeps_other_tags _ [] _ i1 x t' Ea Hin Hh Ht1); auto.
+    - pose proof (fold_gen_err E blobs resp now r Panic eq_refl) as He. rewrite H in He. discriminate.
+    - pose proof (fold_gen_err E blobs resp now r OutOfFuel eq_refl) as He. rewrite H in He. discriminate.
+  Qed.
+
+  Lemma fold_rm_err l st : is_ok st = false -> is_ok (fold_left conv_rm_step l st) = false.
+  Proof. revert st. induction l as [|d r IH]; intros st H; cbn [fold_left]; auto. apply IH. destruct st; [discriminate| |]; reflexivity. Qed.
+
+  Lemma fold_rm_keeps l : forall i i',
+    (forall d, In d l -> reftag (ann_get RefName d) = true) ->
+    fold_left conv_rm_step l (Ok i) = Ok i' -> In x (top i) -> In x (top i').
+  Proof.
+    induction l as [|d r IH]; intros i i' Hl H Hin; cbn [fold_left] in H; [inversion H; subst; auto|].
+    replace (conv_rm_step (Ok i) d) with (rm_desc d i) in H by reflexivity.
+    destruct (rm_desc d i) as [i1| |] eqn:Er.
+    - apply (IH i1 i'); auto; [intros y Hy; apply Hl; right; exact Hy|].
+      destruct (rm_desc_top d i i1 Er) as [s' Hb].
+      assert (Hft : reftag (rm_tag_of d) = true) by (apply Hl; left; reflexivity).
+      assert (Hne : nonempty (rm_tag_of d) = true).
+      { unfold nonempty, sneq. destruct (String.eqb_spec (rm_tag_of d) ""); auto. rewrite e in Hft. discriminate. }
+      eapply rm_top_keeps_othertag; eauto. intros ->. congruence.
+    - pose proof (fold_rm_err r Panic eq_refl) as He. rewrite H in He. discriminate.
+    - pose proof (fold_rm_err r OutOfFuel eq_refl) as He. rewrite H in He. discriminate.
+  Qed.
+
+  Theorem convert_keeps_tags now blobs i i' blobs' :
+    convert E now blobs i = Ok (i', blobs') -> In x (top i) -> In x (top i').
+  Proof.
+    unfold convert. intros H Hin.
+    destruct (fold_left (conv_tag_step E blobs) (digest_tags i) (Ok (mkCS i (responses_of i) [] []))) as [cs| |] eqn:Et; cbn [rbind] in H; try discriminate.
+    destruct (fold_tag_keeps blobs _ _ _ Et Hin) as [H1 Hrm].
+    destruct (fold_left (conv_gen_step E blobs (cs_resp cs) now) (cs_add cs) (Ok (cs_index cs, blobs))) as [[i1 bl1]| |] eqn:Eg; cbn [rbind] in H; try discriminate.
+    pose proof (fold_gen_keeps_tag blobs _ _ _ _ _ _ _ Eg H1) as H2.
+    cbn [fst snd] in H.
+    destruct (fold_left conv_rm_step (cs_rm cs) (Ok i1)) as [i2| |] eqn:Er; cbn [rbind] in H; try discriminate.
+    inversion H; subst. apply (fold_rm_keeps (cs_rm cs) i1 i'); auto.
+    intros d Hd. destruct (Hrm d Hd) as [[]|Hd'].
+    unfold digest_tags in Hd'. apply filter_In in Hd'. destruct Hd' as [_ Hd']. apply andb_true_iff in Hd'. tauto.
+  Qed.
+End KeepsTags.
